@@ -86,7 +86,8 @@ def r1(prog, ev, rep):
                 f = stages[1][1][0]
                 body = ev.apply(f, [Tm("param", (90, "item"))])
                 want = "crate::query::QueryRef::<'a, T>::" + proj
-                if not (is_call(body, want) and body.a[1] == Tm("param", (90, "item"))):
+                direct = body == Tm("field", (Tm("param", (90, "item")), field))     # map(QueryRef::val) inlines the accessor
+                if not ((is_call(body, want) and body.a[1] == Tm("param", (90, "item"))) or direct):
                     msg = "projection closure computes `%s`, expected `%s(item)`" % (body, want)
         rep.check(msg is None, "C12-R1", fn.split("::")[-1], prog.loc_of(p),
                   "Ok(js_path(path, value)?.into_iter().map(QueryRef::%s).collect())" % proj, msg)
